@@ -95,4 +95,66 @@ example : pairVerdict .test false .suite true = .accepted := by decide
 example : pairVerdict .session true .session false = .accepted := by decide
 example : pairVerdict .session true .suite false = .scopeInversion := by decide
 
+/-! ### the rule does not look at `disabled` (nor at `--force-disabled`, which validation does not even receive) -/
+
+mutual
+/-- **The verdict of `check_fixtures_in_suites` does not depend on which suites are marked disabled**: replacing every
+    `disabled` mark of the tree — own marks, hence also the inherited ones — by anything leaves the result unchanged,
+    error included. -/
+theorem checkSuite_independent_of_disabled (R : Registry) (d : String → Bool) :
+    ∀ s : Suite, checkSuite R (relabelSuite d s) = checkSuite R s
+  | .mk path dis inj args tests subs => by
+    unfold relabelSuite checkSuite
+    rw [checkSuites_independent_of_disabled R d subs]
+theorem checkSuites_independent_of_disabled (R : Registry) (d : String → Bool) :
+    ∀ S : List Suite, checkSuites R (relabelSuites d S) = checkSuites R S
+  | [] => by unfold relabelSuites; rfl
+  | s :: rest => by
+    unfold relabelSuites checkSuites
+    rw [checkSuite_independent_of_disabled R d s, checkSuites_independent_of_disabled R d rest]
+end
+
+/-- **A suite that uses a per-thread fixture itself is always REJECTED** (injected attribute or `setup_suite` argument),
+    with a `ValidationError` — whatever its `disabled` mark and those of the suites around it are (the hypothesis does
+    not mention them), at any depth, whatever else the project contains.  So under `--force-disabled`, where a disabled
+    suite is set up by ONE thread whose instance would be put on the suite object for the tests of every worker, no such
+    project is ever run. -/
+theorem suite_using_per_thread_is_rejected (R : Registry) (S : List Suite) {s : Suite} (hs : s ∈ flattenSuites S)
+    {n : String} (hn : n ∈ s.fixtures) {f : Fixture} (hl : lookup R n = some f) (hpt : f.perThread = true) :
+    ∃ e, checkFixturesInSuites R S = .error e ∧ e.isValidation = true := by
+  cases h : checkFixturesInSuites R S with
+  | ok u =>
+    cases u
+    obtain ⟨f', h1, h2⟩ := accepted_suite_uses_no_per_thread R S h s hs n hn
+    rw [hl] at h1
+    cases h1
+    rw [hpt] at h2
+    cases h2
+  | error e => exact ⟨e, rfl, checkSuites_error_validation R S e h⟩
+
+/-- **The decision table of the suite-level rule**, in closed form, for a suite using `g` itself — 3 (enabled / marked
+    disabled / inside a suite marked disabled) × 2 (injected / `setup_suite` argument) × 4 × 2 (scope, per_thread):
+    refused as "uses per-thread fixture" iff `g` is per-thread, else as "incompatible scope" iff `g` is test-scoped, else
+    accepted.  (`Generated/C15TablesCheck.lean`: the table obtained by executing the real `check_fixtures_in_suites` on
+    real `Suite` objects is this function.) -/
+theorem suite_use_decision_table (st : SuiteState) (how : SuiteHow) (gs : Scope) (gpt : Bool) :
+    suiteUseVerdict st how gs gpt =
+      if gpt = true then .suitePerThread
+      else if gs.level < Scope.suite.level then .suiteScope
+      else .accepted := by
+  cases st <;> cases how <;> cases gs <;> cases gpt <;> decide
+
+/-- … in particular the verdict for a disabled suite (own mark or inherited) is the one for an enabled suite -/
+theorem suite_use_verdict_independent_of_disabled (st : SuiteState) (how : SuiteHow) (gs : Scope) (gpt : Bool) :
+    suiteUseVerdict st how gs gpt = suiteUseVerdict .enabled how gs gpt := by
+  rw [suite_use_decision_table, suite_use_decision_table]
+
+/-- non-vacuity: a disabled suite injecting a per-thread fixture is refused, one injecting a shared session fixture is
+    accepted, one injecting a test-scoped fixture is refused for its scope -/
+example : suiteUseVerdict .disabledOwn .injected .session true = .suitePerThread := by decide
+example : suiteUseVerdict .disabledInherited .setupArg .suite true = .suitePerThread := by decide
+example : suiteUseVerdict .disabledOwn .injected .session false = .accepted := by decide
+example : suiteUseVerdict .disabledInherited .injected .test false = .suiteScope := by decide
+example : relabelSuites (fun _ => false) (suiteUseTree .disabledOwn .injected) = suiteUseTree .enabled .injected := rfl
+
 end LccModel.C15V
